@@ -10,17 +10,27 @@ mod runner;
 
 use runner::{Engine, Opts, Tier};
 
-/// Counting allocator: recognises the (padded) task allocations of the `task` engine by their size.
+/// Counting allocator: while the `task` engine has `TRACK_SPAWN` set (around a spawn call) the allocation whose size is
+/// that of the padded task is remembered by address; its deallocation is recognised by that address.  (Recognising by
+/// size alone mistook a 6144-byte `Vec` of the harness for a task.)
 struct CountingAlloc;
 unsafe impl std::alloc::GlobalAlloc for CountingAlloc {
     unsafe fn alloc(&self, l: std::alloc::Layout) -> *mut u8 {
-        if l.size() >= engines::task::TASK_PAD && l.size() < engines::task::TASK_PAD + 256 {
+        let p = std::alloc::System.alloc(l);
+        if engines::task::TRACK_SPAWN.load(std::sync::atomic::Ordering::SeqCst)
+            && l.size() >= engines::task::TASK_PAD
+            && l.size() < engines::task::TASK_PAD + 256
+        {
             engines::task::TASK_ALLOCS.fetch_add(1, std::sync::atomic::Ordering::SeqCst);
+            engines::task::TASK_PTR.store(p as usize, std::sync::atomic::Ordering::SeqCst);
         }
-        std::alloc::System.alloc(l)
+        p
     }
     unsafe fn dealloc(&self, p: *mut u8, l: std::alloc::Layout) {
-        if l.size() >= engines::task::TASK_PAD && l.size() < engines::task::TASK_PAD + 256 {
+        if p as usize == engines::task::TASK_PTR.load(std::sync::atomic::Ordering::SeqCst)
+            && l.size() >= engines::task::TASK_PAD
+            && l.size() < engines::task::TASK_PAD + 256
+        {
             engines::task::TASK_FREES.fetch_add(1, std::sync::atomic::Ordering::SeqCst);
         }
         std::alloc::System.dealloc(p, l)
